@@ -42,7 +42,7 @@ class Boom(Exception):
 # ---- (a) run histories --------------------------------------------------------------------------------
 KINDS = ('ok', 'raise', 'raise-IndexError', 'raise-KeyError', 'raise-StopIteration', 'return7', 'return0', 'returnFalse', 'blocked',
          'till', 'till0', 'till3', 'tillnow', 'till-parked', 'till-scope', 'till-past', 'cancel-tie', 'nested-ok', 'nested-raise', 'nested-leak',
-         'cleanup-blocked', 'cleanup-raise', 'ctx-thread', 'handback', 'handback-till')
+         'cleanup-blocked', 'cleanup-raise', 'ctx-thread', 'handback', 'handback-till', 'inf-raise', 'inf-return', 'inf-scope')
 
 
 def do_run(kind, start, log):
@@ -160,6 +160,33 @@ def do_run(kind, start, log):
         check_order(['a', 'b'])
         if marks[-1:] != [('b', 'end', start + 2)]:
             msgs.append('till-past: %r' % (marks,))
+    elif kind in ('inf-raise', 'inf-return', 'inf-scope'):
+        # an activity that waits out an infinite delay can still make progress: the clock reaches infinity, it resumes there, and
+        # what it does then (a failure, an unreceived value, ending its scope) is part of the run
+        inf = float('inf')
+        exc = Boom('late')
+
+        def fail():
+            raise exc
+        try:
+            if kind == 'inf-scope':
+                async def owner():
+                    async with usim.Scope() as scope:
+                        scope.do(a('c', inf))
+                    marks.append(('owner', 'end', time.now))
+                usim.run(owner(), a('b', 2), start=start)
+                if ('c', 'end', inf) not in marks or ('owner', 'end', inf) not in marks:
+                    msgs.append('inf-scope: run() returned although activities could still make progress: %r' % (marks,))
+            else:
+                usim.run(a('a', inf, fail if kind == 'inf-raise' else (lambda: 7)), a('b', 2), start=start)
+                msgs.append('%s: run() returned normally although the root that waited for an infinite delay %s (%r)' % (
+                    kind, 'failed' if kind == 'inf-raise' else 'returned a value', marks))
+        except ActivityLeak as e:
+            if kind != 'inf-return' or e.result != 7:
+                msgs.append('%s: run() raised %r' % (kind, e))
+        except BaseException as e:
+            if kind != 'inf-raise' or e is not exc:
+                msgs.append('%s: run() raised %r' % (kind, e))
     elif kind == 'cancel-tie':
         # a child is cancelled in the very time step in which it then finishes by itself (the canceller wakes first):
         # nothing of that may end the run
